@@ -42,11 +42,17 @@ def generate(rng, opts):
         leaf = lambda: ["num", r.choice(lg.NUMERIC)] if r.random() < 0.8 else ["str"]
         rec = ["rec", [[k, ["opt", leaf()] if r.random() < 0.7 else leaf()] for k in names], r.choice([None, None, "Rec"])]
         t = r.choice([["opt", rec], ["opt", rec], ["opt", rec], rec, ["list", ["opt", rec]]])
+    hidden_regular = not records_of_options and r.random() < 0.04
+    if hidden_regular:
+        # lists of optional fixed-size lists, the fixed-size node behind two VirtualArrays: option and list nodes have
+        # to look *through* every VirtualArray around their content before they decide how to reduce, sort or pad it
+        t = ["list", ["opt", ["reglist", ["num", r.choice(lg.NUMERIC)], r.choice([1, 2, 2, 3])]]]
     n = r.choice([0, 1, 2, 3, 3, 5, 8])
     truth = lg.SpecGen(r, opts).array(t, n)
     declare_form = r.random() < 0.6 or records_of_options
     declare_length = r.random() < 0.7
-    lazy = lg.insert_virtuals(r, truth, r.choice([1, 1, 2, 3]), declare_form, declare_length, force_root=records_of_options)
+    lazy = lg.insert_virtuals(r, truth, r.choice([1, 1, 2, 3]), declare_form, declare_length, force_root=records_of_options,
+                              double_below_option=hidden_regular)
     if any(k.isdigit() for k in lg.keys_of(truth)):
         # tuples somewhere: the slices will use positional keys ("0", "1"), which also select a field of a *named* record
         # by position - that does depend on the order in which a generator returns the fields
